@@ -1,7 +1,7 @@
 (* Concrete witnesses, computed by vm_compute: (1) the inputs on which the pinned code violated C13 / C19
-   (DESIGN.md section 6, F13a-e, F13g, F19a-b) as positive Examples of the repaired model - each names the fix
-   commit and what the model answered before it; (2) the `_refuted` lemma for the defect that was not repaired
-   (F13f); (3) Examples that the theorems are not vacuous on a concrete non-trivial definition. *)
+   (DESIGN.md section 6, F13a-g, F19a-b) as positive Examples of the repaired model - each names the fix commit
+   and what the model answered before it; (2) Examples that the theorems are not vacuous on a concrete
+   non-trivial definition. *)
 From Coq Require Import List ZArith String Ascii Bool Arith.
 Import ListNotations.
 From BD.Loader Require Import Str Model Decode Proofs DecodeProofs LoadProofs.
@@ -82,17 +82,17 @@ Example fixed_F13e :
                            ("steps", VList [m [("name", VStr "s1"); ("call", m [("function", VStr "f"); ("args", m [("x", VStr "")])])]])])) = Err.
 Proof. vm_compute. auto. Qed.
 
-(* ---- C13_serialisable: the status of an accepted DAG marshals   -- FALSE (F13f) --------------------------- *)
-Lemma serialisable_refuted_F13f :
-  (exists d g, outcome (buildW oYAML d [] []) = Ok g /\ json_ok g = false /\ serve_status g = Panic) /\
-  (exists d g, outcome (buildW oYAML d [] []) = Ok g /\ json_ok g = false /\ serve_status g = Panic).
-Proof.
-  split.
-  - eexists (def_of (m [("steps", VList [m [("name", VStr "s1"); ("executor",
-        m [("type", VStr "http"); ("config", m [("headers", VList [m [("a", VInt 1)]])])])]])])), _. vm_compute. auto.
-  - eexists (def_of (m [("steps", VList [m [("name", VStr "s1"); ("executor",
-        m [("type", VStr "http"); ("config", m [("timeout", VFloat FNaN "NaN" 0)])])]])])), _. vm_compute. auto.
-Qed.
+(* F13f: executor config holding a mapping inside a list / a non-finite float.  Before fix 667fb54 the model
+   accepted both with json_ok g = false and serve_status g = Panic; now the mapping inside the list is converted
+   (the DAG is accepted and serialisable) and the non-finite float is rejected. *)
+Definition tree_F13f_map := m [("steps", VList [m [("name", VStr "s1"); ("executor",
+        m [("type", VStr "http"); ("config", m [("headers", VList [m [("a", VInt 1)]])])])]])].
+Definition tree_F13f_nan := m [("steps", VList [m [("name", VStr "s1"); ("executor",
+        m [("type", VStr "http"); ("config", m [("timeout", VFloat FNaN "NaN" 0)])])]])].
+Example fixed_F13f :
+  (exists g, outcome (loadW oYAML tree_F13f_map) = Ok g /\ json_ok g = true /\ serve_status g = Ok tt) /\
+  outcome (loadW oYAML tree_F13f_nan) = Err.
+Proof. split; [eexists|]; vm_compute; auto. Qed.
 
 (* ---- C19: the witnesses of the former `_refuted` lemmas ----------------------------------------------------------- *)
 (* F19a: a command substitution in logDir.  Before fix 4348d0d the model answered [EExec "touch /x"] under noEval. *)
@@ -129,7 +129,7 @@ Definition example_tree : yv :=
 Definition example_def := def_of example_tree.
 
 Example premises_satisfiable :
-  decode example_tree = Ok example_def /\ no_nil example_def = true /\ def_config_clean example_def = true /\
+  decode example_tree = Ok example_def /\ no_nil example_def = true /\
   (exists g, outcome (buildW oYAML example_def [] []) = Ok g /\ List.length (all_steps g) = 7 /\
              List.length (g_schedule g) = 2 /\ List.length (all_conditions g) = 2 /\ json_ok g = true) /\
   (exists g, outcome (buildW oLoad example_def [] []) = Ok g /\
